@@ -8,6 +8,9 @@ import Driver.Session
 import Driver.Schema
 import Driver.Sched
 import Driver.Lexical
+import Driver.Restart
+import Driver.Conc
+import Driver.Tester
 
 /-!
 Line-protocol driver of the executable models: one request line ↦ one reply line.
@@ -24,6 +27,9 @@ structure DriverState where
   sched : Driver.Sched.St := {}
   ordobj : Driver.OrderObj.St := {}
   lex : Driver.Lexical.St := {}
+  rst : Driver.Restart.St := {}
+  conc : Driver.Conc.St := {}
+  tst : Driver.Tester.St := {}
 
 def step (st : DriverState) (line : String) : DriverState × String :=
   match (line.trimAscii.toString.splitOn " ").filter (· ≠ "") with
@@ -39,6 +45,9 @@ def step (st : DriverState) (line : String) : DriverState × String :=
     | ["sch", c] => let (s, o) := Driver.Schema.handle st.schema c args; ({ st with schema := s }, o)
     | ["sched", c] => let (s, o) := Driver.Sched.handle st.sched c args; ({ st with sched := s }, o)
     | ["lex", c] => let (s, o) := Driver.Lexical.handle st.lex c args; ({ st with lex := s }, o)
+    | ["rst", c] => let (s, o) := Driver.Restart.handle st.rst c args; ({ st with rst := s }, o)
+    | ["conc", c] => let (s, o) := Driver.Conc.handle st.conc c args; ({ st with conc := s }, o)
+    | ["tst", c] => let (s, o) := Driver.Tester.handle st.tst c args; ({ st with tst := s }, o)
     | ["oo", c] => let (s, o) := Driver.OrderObj.handle st.ordobj c args; ({ st with ordobj := s }, o)
     | _ => (st, "bad-op")
 
